@@ -303,6 +303,54 @@ def replay_concrete(mi, with_builtins, assignment):
     return False, 'ok'
 
 
+def typed_names_scenario():
+    """concrete supplement: names and reference texts matched by converting rules (INT, FLOAT, STRING,
+    NUMBER) — a reference resolves to the unique object whose name equals the converted reference value;
+    unknown / ambiguous names are reported as such; the builtins fall-back is keyed by the same values"""
+    from textx import metamodel_from_str
+    from textx.exceptions import TextXSemanticError
+    problems = []
+    for rule, names, absent in (('INT', ['1', '22', '-3'], '7'), ('FLOAT', ['1.5', '2', '3e2'], '9.5'),
+                                ('STRING', ['"a b"', "'c'", '"d\\"e"'], '"zz"'), ('NUMBER', ['1', '2.5', '30'], '4'),
+                                ('ID', ['a', 'b1', '_c'], 'zz')):
+        g = ("Model: rooms+=Room doors*=Door;\nRoom: 'room' name=%(r)s;\n"
+             "Door: 'door' a=[Room:%(r)s] ('to' bs+=[Room:%(r)s][','])?;" % {'r': rule})
+        mm = metamodel_from_str(g)
+        rooms = ' '.join('room %s' % n for n in names)
+        try:
+            m = mm.model_from_str('%s door %s to %s, %s door %s' % (rooms, names[1], names[2], names[0], names[2]))
+            got = [m.doors[0].a, m.doors[0].bs[0], m.doors[0].bs[1], m.doors[1].a]
+            want = [m.rooms[1], m.rooms[2], m.rooms[0], m.rooms[2]]
+            if any(g_ is not w for g_, w in zip(got, want)):
+                problems.append('names by %s: references resolve to rooms %s, expected %s' % (
+                    rule, [getattr(x, 'name', x) for x in got], [w.name for w in want]))
+        except Exception as e:  # noqa
+            problems.append('names by %s: valid model fails: %s: %s' % (rule, type(e).__name__, str(e)[:80]))
+        for text, want in (('%s door %s' % (rooms, absent), 'Unknown object'),
+                           ('%s room %s door %s' % (rooms, names[0], names[0]), 'not unique')):
+            try:
+                mm.model_from_str(text)
+                problems.append('names by %s: %r loads, expected %s' % (rule, text, want))
+            except TextXSemanticError as e:
+                if want not in str(e):
+                    problems.append('names by %s: %r fails with %s, expected %s' % (rule, text, str(e)[:60], want))
+            except Exception as e:  # noqa
+                problems.append('names by %s: %r raises %s' % (rule, text, type(e).__name__))
+        # builtins keyed by the converted value
+        mm2 = metamodel_from_str(g)
+        b = mm2['Room']()
+        probe = mm2.model_from_str('room %s' % absent)
+        b.name = probe.rooms[0].name
+        mm2.builtins = {b.name: b}
+        try:
+            m = mm2.model_from_str('%s door %s' % (rooms, absent))
+            if m.doors[0].a is not b:
+                problems.append('names by %s: builtin fall-back resolves to %r' % (rule, m.doors[0].a))
+        except Exception as e:  # noqa
+            problems.append('names by %s: builtin named %r not found: %s' % (rule, b.name, str(e)[:60]))
+    return problems
+
+
 def main():
     import textx.model as M
     import textx.scoping.providers as P
@@ -355,6 +403,9 @@ def main():
                 break
             break
         chk.sample({'model': MODELS[r['model']], 'builtins': r['builtins'], 'paths': r['paths'], 'discharged': r['ok']})
+    for pr in typed_names_scenario()[:3]:
+        chk.violation(pr, {'typed_names': True})
+    chk.cov['bounds']['typed_names'] = 'names / references matched by INT, FLOAT, STRING, NUMBER, ID: 4 loads each (concrete)'
     chk.cov['paths_explored'] = paths
     chk.cov['distinct_nontrivial'] = paths
     chk.cov['obligations'] = paths
@@ -366,6 +417,9 @@ def main():
 
 
 def replay(data):
+    if data.get('typed_names'):
+        pr = typed_names_scenario()
+        return bool(pr), pr[:3]
     if 'names' not in data:
         return True, data.get('detail')
     return replay_concrete(data['model'], data['builtins'], data['names'])
